@@ -1,5 +1,5 @@
 //! C15 — every route that can produce a `SafeLong`, on boundary neighbourhoods and random values.
-use crate::run::{guarded, Cases, Tier};
+use crate::run::{Cases, Tier};
 use crate::util::{hex, Rng};
 use conjure_object::{Any, FromPlain, SafeLong};
 use std::collections::BTreeMap;
@@ -15,12 +15,33 @@ fn safe(v: i128) -> bool {
 fn show(r: Result<SafeLong, String>) -> String {
     match r {
         Ok(s) => format!("ok {}", *s),
+        Err(e) if e.starts_with(PANIC) => "panic".to_string(),
         Err(_) => "err".to_string(),
     }
 }
 
+const PANIC: &str = "PANIC: ";
+
+/// like `run::guarded`, but a panic is told apart from a reported error (the statement demands an error)
+fn guarded<T>(f: impl FnOnce() -> T) -> Result<T, String> {
+    crate::run::guarded(f).map_err(|p| format!("{}{}", PANIC, p))
+}
+
+fn panicked(cs: &mut Cases, route: &str, input: &str, r: &Result<SafeLong, String>) -> bool {
+    if let Err(e) = r {
+        if e.starts_with(PANIC) {
+            cs.fail_last(&format!("{}:panic", route), format!("{} panicked on {} instead of reporting an error: {}", route, input, &e[PANIC.len()..]));
+            return true;
+        }
+    }
+    false
+}
+
 /// property oracle for integer routes: accepted iff safe, and the value is kept
 fn check_int(cs: &mut Cases, route: &str, v: i128, r: &Result<SafeLong, String>) {
+    if panicked(cs, route, &v.to_string(), r) {
+        return;
+    }
     match r {
         Ok(s) => {
             if !safe(**s as i128) {
@@ -111,7 +132,8 @@ fn text_route(cs: &mut Cases, text: &str) {
     let nontriv = meaning.map(|m| !safe(m) || m.abs() > 1 << 40).unwrap_or(true) || text.starts_with('+') || text.starts_with("0") || text.starts_with("-0");
     let note = format!("{:?}", text);
     let h = hex(text.as_bytes());
-    let check_text = |cs: &mut Cases, route: &str, accepts_shape: bool, r: &Result<SafeLong, String>| match (r, meaning) {
+    let check_text = |cs: &mut Cases, route: &str, accepts_shape: bool, r: &Result<SafeLong, String>| if panicked(cs, route, &format!("{:?}", text), r) {
+    } else { match (r, meaning) {
         (Ok(s), Some(m)) => {
             if !safe(**s as i128) {
                 cs.fail_last(&format!("{}:out-of-range-produced", route), format!("{} produced {} from text {:?}", route, **s, text));
@@ -130,7 +152,7 @@ fn text_route(cs: &mut Cases, text: &str) {
             }
         }
         (Err(_), None) => {}
-    };
+    } };
 
     let t = text.to_string();
     let r = guarded(move || SafeLong::from_str(&t).map_err(|e| e.to_string())).and_then(|r| r);
@@ -170,6 +192,27 @@ fn text_route(cs: &mut Cases, text: &str) {
         let r = r.and_then(|m| m.keys().next().copied().ok_or_else(|| "empty".to_string()));
         cs.push("jsonkey", format!("jsonkey {}", h), show(r.clone()), nontriv, format!("json map key \"{}\"", text));
         check_text(cs, "json-key", json_shape, &r);
+
+        // the dynamic `any`: a JSON integer / an object key held in an Any, then viewed as a safelong
+        // (same verdict and value as the direct routes: the model lines are the same)
+        let t = text.to_string();
+        let r = guarded(move || {
+            let any = conjure_serde::json::client_from_str::<conjure_object::Any>(&t).map_err(|e| e.to_string())?;
+            any.deserialize_into::<SafeLong>().map_err(|e| e.to_string())
+        })
+        .and_then(|r| r);
+        cs.push("anyvalue", format!("jsonvalue {}", h), show(r.clone()), nontriv, format!("json document {} held in an Any", text));
+        check_text(cs, "any-value", json_shape, &r);
+        let doc = format!("{{\"{}\":true}}", text);
+        let r = guarded(move || {
+            let any = conjure_serde::json::client_from_str::<conjure_object::Any>(&doc).map_err(|e| e.to_string())?;
+            any.deserialize_into::<BTreeMap<SafeLong, bool>>().map_err(|e| e.to_string())
+        })
+        .and_then(|r| r);
+        let r = r.and_then(|m| m.keys().next().copied().ok_or_else(|| "empty".to_string()));
+        // (a key held in an Any is a string; it is parsed with Rust's integer grammar, like `from_str`)
+        cs.push("anykey", format!("fromstr {}", h), show(r.clone()), nontriv, format!("json map key \"{}\" held in an Any", text));
+        check_text(cs, "any-key", meaning.is_some(), &r);
     }
 }
 
@@ -177,6 +220,18 @@ pub fn cases(seed: u64, tier: Tier) -> Cases {
     let mut rng = Rng::new(seed);
     let mut cs = Cases::new("C15");
     let pool = int_pool(&mut rng, tier);
+    // u128 values beyond i128 (the pool above is i128): the model line carries the decimal text
+    for d in 0..6u128 {
+        for n in [u128::MAX - d, (1u128 << 127) + d, (1u128 << 127) - 1 - d, u128::MAX - (1u128 << 53) + d, (1u128 << 64) + d] {
+            let r = guarded(move || SafeLong::try_from(n).map_err(|e| e.to_string())).and_then(|r| r);
+            cs.push("tryfrom:u128", format!("tryfrom {}", n), show(r.clone()), true, format!("SafeLong::try_from({}u128)", n));
+            if !panicked(&mut cs, "try_from<u128>", &n.to_string(), &r) {
+                if let Ok(s) = &r {
+                    cs.fail_last("try_from<u128>:out-of-range-accepted", format!("try_from<u128> accepted {} (far outside the safe range) as {}", n, **s));
+                }
+            }
+        }
+    }
     for &v in &pool {
         if let Ok(n) = i64::try_from(v) {
             let r = guarded(move || SafeLong::new(n).map_err(|e| e.to_string())).and_then(|r| r);
